@@ -115,6 +115,8 @@ def check_error_ctor_pure(cx: Cx, ci, doc: str = None) -> bool:
                 if isinstance(f_, ast.Attribute) and isinstance(f_.value, ast.Name) and f_.attr.startswith('_') and \
                         f_.value.id in (ci.name, 'self', 'cls') and f_.attr in ci.methods:
                     own = ci.methods[f_.attr][0]
+                if own is None and isinstance(f_, ast.Name) and f_.id.startswith('_') and f_.id in ci.module.functions:
+                    own = ci.module.functions[f_.id]            # ... or of the module (`_system_not_found_message(s_id)`)
                 if own is not None:
                     if own.qualname not in seen_h:
                         seen_h.add(own.qualname)
